@@ -84,6 +84,8 @@ pub fn gen(seed: u64, n: usize) -> Vec<Value> {
         vec!["\u{00A0}", " ", "ä", "€", "😀"],
         vec!["\r\n", "e\u{0301}", "🇩🇪", "e", "\u{0301}", " "],
         vec!["\t", "x", "y", "\u{3000}", "字"],
+        // pure ASCII with CR LF (one character in grapheme mode): byte-wise fast paths
+        vec!["\r\n", "a", "b", " ", "\n", "\r"],
     ];
     let mut out = vec![];
     for i in 0..n {
